@@ -583,6 +583,16 @@ var fuzzStderr sync.Once
 // structured generator), the same Run decides, and failures are saved as
 // ordinary replay files.
 func FuzzRapid[C any](f *testing.F, id, sub string, gen func(*rapid.T) C, run func(C) error) {
+	// Warm up lazily built tables (type catalogues, pools) outside the fuzz
+	// callback: the fuzz worker gives each input ten seconds and would count
+	// the one-time set-up against the first one ("deadlocked!").
+	func() {
+		defer func() { recover() }()
+		g := rapid.Custom(gen)
+		for i := 1; i <= 8; i++ {
+			_ = safeRun(run, g.Example(i))
+		}
+	}()
 	f.Fuzz(rapid.MakeFuzz(func(t *rapid.T) {
 		fuzzStderr.Do(func() {
 			// fuzz workers run with stderr discarded: a runtime fatal error would leave no trace
